@@ -351,8 +351,7 @@ def execute(plan, env):
 def shrink(plan, still_fails, budget):
     """Keep only the failing configuration, then drop types that do not matter."""
     from .. import core
-    env = core._ENV
-    res = core.run_one(__import__("sim.checks.c18_generator", fromlist=["x"]), plan, env)
+    res = core.probe(plan)
     if res.violation is None:
         return plan
     config = res.violation.get("config", "")
